@@ -21,7 +21,24 @@ import (
 //	sequential: wire-log multiset and outputs identical  -> P5 (replay determinism) asserted
 //	firstDet:   every party's first-round message identical -> P2 (locality) asserted
 //	consDet:    every party's byte consumption identical  -> P4 "does not complete" asserted
-var frozenFacts = map[string]facts{}
+var frozenFacts = map[string]facts{
+	"session":                   {sequential: true, firstDet: true, consDet: true},
+	"aor":                       {sequential: true, firstDet: true, consDet: true},
+	"gennaro-thr23-k256":        {sequential: false, firstDet: false, consDet: true},
+	"gennaro-cnf3-ed25519":      {sequential: false, firstDet: false, consDet: true},
+	"canetti-thr23-k256":        {sequential: true, firstDet: true, consDet: true},
+	"canetti-cnf3-ed25519":      {sequential: true, firstDet: true, consDet: true},
+	"hjky-thr23-k256":           {sequential: true, firstDet: true, consDet: true},
+	"redistribute-refresh":      {sequential: true, firstDet: true, consDet: true},
+	"redistribute-to-unanimity": {sequential: true, firstDet: true, consDet: true},
+	"lindell22-bip340-q2":       {sequential: true, firstDet: true, consDet: true},
+	"lindell22-bip340-q3":       {sequential: true, firstDet: true, consDet: true},
+	"lindell22-mina-q2":         {sequential: true, firstDet: true, consDet: true},
+	"lindell22-schnorr-ed25519-sha512-neg=false-le=true-q2": {sequential: true, firstDet: true, consDet: true},
+	"dkls23-softspoken": {sequential: true, firstDet: true, consDet: true},
+	"dkls23-bbot":       {sequential: true, firstDet: true, consDet: true},
+	"lindell17-sign":    {sequential: true, firstDet: true, consDet: true},
+}
 
 func fixedSeeds(sc *scenario, salt uint64) map[proto.ID]uint64 {
 	m := map[proto.ID]uint64{}
